@@ -204,7 +204,11 @@ class KernExporter(object):
                 * symbolic_duration["actual_notes"]
                 / symbolic_duration["normal_notes"]
             )
-            kern_base = str(kern_base)
+            # (reciprocal values are integers: "12", not "12.0", whose
+            # full stop would be read as a dot)
+            kern_base = (
+                str(int(kern_base)) if float(kern_base).is_integer() else str(kern_base)
+            )
         return kern_base + dots
 
     def duration_to_kern(self, element: spt.GenericNote) -> str:
